@@ -742,6 +742,39 @@ func Corpus(tier string, embedded []*Schema) []*Schema {
 		add(&Schema{Name: "pkgnames", Files: files})
 	}
 
+	// ---- lower-case message names made of the letters of the package name (prefix vs cutset trimming), nested
+	{
+		pkg := "demo.mode"
+		f := file("vc/lowernames.proto", pkg, goPkg("lowernames", ""))
+		for _, n := range []string{"mode", "data", "demo", "dome", "e", "moo"} {
+			m := newMsg(pkg, n)
+			m.field("v", 1, tString, "")
+			in := m.nested("deed")
+			in.field("w", 1, tInt32, "")
+			deep := in.nested("m")
+			deep.field("x", 1, tBool, "")
+			m.field("inner", 2, tMessage, in.path)
+			m.repeated("deeps", 3, tMessage, deep.path)
+			f.MessageType = append(f.MessageType, m.msg)
+		}
+		add(&Schema{Name: "lowernames", Files: []*descriptorpb.FileDescriptorProto{f}})
+	}
+
+	// ---- the features parameter may repeat or reorder feature names: the result is the same code
+	{
+		gq := file("vc/featdup.proto", "vc.featdup", goPkg("featdup", ""))
+		mq := newMsg("vc.featdup", "M")
+		mq.field("a", 1, tString, "")
+		mq.mapField("m", 2, tString, tInt64, "")
+		gq.MessageType = append(gq.MessageType, mq.msg)
+		add(&Schema{Name: "featdup", Files: []*descriptorpb.FileDescriptorProto{gq}, Param: "features=protoc+fast+protoc+fast"})
+		gr := file("vc/featrev.proto", "vc.featrev", goPkg("featrev", ""))
+		mr := newMsg("vc.featrev", "M")
+		mr.field("a", 1, tString, "")
+		gr.MessageType = append(gr.MessageType, mr.msg)
+		add(&Schema{Name: "featrev", Files: []*descriptorpb.FileDescriptorProto{gr}, Param: "features=fast+protoc"})
+	}
+
 	// ---- requests that must not produce code
 	{
 		f := file("vc/p2.proto", "vc.p2", goPkg("p2", ""))
